@@ -264,8 +264,14 @@ def run(cx):
         ok = t[0] == "call" and name_matches(t[1], "ops::index::Index::index") and int_of(t[2][1]) == 0 and term_has_call(t, "quinn::connection::Connection::peer_identity") \
             and mentions_param(t, "connection")
         ob.require(ok, "try_peer_id/first-cert-of-peer-identity", f"try_peer_id derives the id from {show(t)[:160]}", tb.path)
-        rets = [s for bl in tb.blocks if not bl.get("cleanup") for s in bl["s"] if s["k"] == "assign" and s["lhs"] == 0 and s["rv"].get("variant") == "Ok"]
-        ob.require(len(rets) == 1 and term_has_call(to.of_rvalue(rets[0]["rv"]), f"{CR}::peer_id_from_certificate"), "try_peer_id/returns", "try_peer_id returns something else", tb.path)
+        # returns exactly what peer_id_from_certificate returned (Ok ↦ Ok(that id), Err ↦ Err), whether written `let x = f()?; Ok(x)`,
+        # `f().map_err(Into::into)` or a match
+        tab = function_cases(prog, tb, lambda t_: ("pid", "result") if t_[0] == "call" and name_matches(t_[1], f"{CR}::peer_id_from_certificate") else None)
+        ok = table_lookup(tab, pid="Ok") == {"Ok"} and table_lookup(tab, pid="Err") == {"Err"}
+        r0 = to.of_local(0)
+        oks = [x for x in walk(r0) if x[0] == "agg" and str(x[2]).endswith("Result::Ok")]
+        ok = ok and all(term_has_call(x, f"{CR}::peer_id_from_certificate") for x in oks) and term_has_call(r0, f"{CR}::peer_id_from_certificate")
+        ob.require(ok, "try_peer_id/returns", f"try_peer_id returns something else: cases {sorted((sorted(k), sorted(v)) for k, v in tab.items())}", tb.path)
         gb = cx.body("anemo::connection::Connection::peer_id")
         t = strip_identity(Origins(gb).of_local(0))
         ob.require(t[0] == "field" and t[2] == "peer_id" and is_param(t[1], "self"), "Connection::peer_id/getter", f"Connection::peer_id returns {show(t)}", gb.path)
